@@ -11,6 +11,8 @@ pub mod util;
 pub mod gen;
 #[cfg(kani)]
 pub(crate) mod h_raw;
+#[cfg(kani)]
+pub(crate) mod h_slru;
 
 /// Concrete-playback tests written by the driver when it replays a solver counterexample.
 #[cfg(all(kani, test))]
